@@ -101,11 +101,25 @@ def evToCl : TextInput.Ev Nat → TextInputCl.Ev Nat
   | .key s c a sup t => .key s c a sup t
   | .other => .other
 
+/-- The cursor column `Draw` computes, through the translated body (`chars` = widths of the characters a cluster is
+    drawn as); the hand model when the body cannot be run. -/
+def colI (cl : List Nat → List (List Nat)) (chars : List Nat → List Nat) (tf : TextFieldCl.TF Nat) : Nat :=
+  match EdRun.tfDrawCol EdGen.genTf cl (fun c => (chars c).map Int.ofNat) tf 1000 1 with
+  | some (some c) => (c % 65536).toNat
+  | _ => (TextFieldCl.drawCursorCol cl chars tf).toNat
+
+/-- `Draw` at a given surface size through the translated body: `nocursor` for a zero-sized surface. -/
+def drawI (cl : List Nat → List (List Nat)) (chars : List Nat → List Nat) (tf : TextFieldCl.TF Nat) (w h : Nat) : String :=
+  match EdRun.tfDrawCol EdGen.genTf cl (fun c => (chars c).map Int.ofNat) tf w h with
+  | some (some c) => s!"col={(c % 65536).toNat}"
+  | some none => "nocursor"
+  | none => if w = 0 ∨ h = 0 then "nocursor" else s!"col={(TextFieldCl.drawCursorCol cl chars tf).toNat}"
+
 /-- The model column when a translated body could not be run. -/
 def noBody : String := "unknown-body"
 
 def tfCanon (s : St) (tf : TextField.TF Nat) (cbs : List (TextField.Call Nat)) : String :=
-  s!"v={showIds tf.value} col={(TextField.drawCursorCol (fun g => [s.w g]) tf).toNat} cb={showLog (cbs.map showCall)} cur={tf.cursor} n={tf.n}"
+  s!"v={showIds tf.value} col={colI cl1 (fun c => [s.w (c.headD 0)]) (toCl tf)} cb={showLog (cbs.map showCall)} cur={tf.cursor} n={tf.n}"
 
 /-- What the ideal editor requires of a TextField observation. -/
 def tfExpect (s : St) (ed : Ed Nat) (cbs : List (Callback Nat)) : String :=
@@ -144,11 +158,11 @@ def stepTF (s : St) (op : List String) (impl : String) : St × String :=
   | ["draw", w, h] =>
     match w.toNat?, h.toNat? with
     | some w, some h =>
-      if w = 0 ∨ h = 0 then (s, s!"nocursor\t{impl}\t{verdictEq "draw" impl "nocursor"}")
+      let mdl := drawI cl1 (fun c => [s.w (c.headD 0)]) (toCl s.tf) w h
+      if w = 0 ∨ h = 0 then (s, s!"{mdl}\t{impl}\t{verdictEq "draw" impl "nocursor"}")
       else
-        let col := (TextField.drawCursorCol (fun g => [s.w g]) s.tf).toNat
         let want := widthOf s (s.ed.text.take s.ed.cursor)
-        (s, s!"col={col}\t{impl}\t{verdictEq "cursor_column" impl s!"col={want}"}")
+        (s, s!"{mdl}\t{impl}\t{verdictEq "cursor_column" impl s!"col={want}"}")
     | _, _ => (s, "bad-op\tbad-op\tbad-op")
   | _ =>
     -- programmatic API: no callbacks
@@ -339,7 +353,7 @@ def tfcCanon (s : St) (tf : TextFieldCl.TF Nat) (cbs : List (TextFieldCl.Call Na
   let shc : TextFieldCl.Call Nat → String
     | .change t => "C" ++ showClusters (s.cl t)
     | .submit t => "S" ++ showClusters (s.cl t)
-  s!"v={showClusters (s.cl tf.value)} col={(TextFieldCl.drawCursorCol s.cl s.cchars tf).toNat} cb={showLog (cbs.map shc)} cur={tf.cursor} n={tf.n}{segFlag s.cl tf.value}"
+  s!"v={showClusters (s.cl tf.value)} col={colI s.cl s.cchars tf} cb={showLog (cbs.map shc)} cur={tf.cursor} n={tf.n}{segFlag s.cl tf.value}"
 
 def tfcExpect (s : St) (ed : Ed (List Nat)) (cbs : List (Callback (List Nat))) : String :=
   s!"v={showClusters ed.text} col={widthOfC s (ed.text.take ed.cursor)} cb={showLog (cbs.map showCbC)} cur={ed.cursor}"
@@ -379,11 +393,11 @@ def stepTFC (s : St) (op : List String) (impl : String) : St × String :=
   | ["draw", w, h] =>
     match w.toNat?, h.toNat? with
     | some w, some h =>
-      if w = 0 ∨ h = 0 then (s, s!"nocursor\t{impl}\t{verdictEq "draw" impl "nocursor"}")
+      let mdl := drawI cl s.cchars s.tfc w h
+      if w = 0 ∨ h = 0 then (s, s!"{mdl}\t{impl}\t{verdictEq "draw" impl "nocursor"}")
       else
-        let col := (TextFieldCl.drawCursorCol cl s.cchars s.tfc).toNat
         let want := widthOfC s (s.edc.text.take s.edc.cursor)
-        (s, s!"col={col}\t{impl}\t{verdictEq "cursor_column" impl s!"col={want}"}")
+        (s, s!"{mdl}\t{impl}\t{verdictEq "cursor_column" impl s!"col={want}"}")
     | _, _ => (s, "bad-op\tbad-op\tbad-op")
   | _ =>
     let r : Option (String × List (EdLang.V Nat) × TextFieldCl.TF Nat × Op (List Nat)) :=
